@@ -21,11 +21,322 @@ def Alternating : List Op → Prop
 def replaceOut (ops : List Op) (w : World) : Res ((RState × Rec) × World) :=
   deliver (replaceHook recHook) (ops.map Call.op ++ [.finish]) ({}, {}) w
 
+/-! Helper lemmas live in the sub-namespace `SimilarVerif.Replace` to avoid clashes with other lemma files. -/
+namespace Replace
+
+/-! ### the recording hook -/
+
+theorem recHook_call (c : Call) (t : List Call) (w : World) :
+    recHook.call c { trace := t } w = .ok ({ trace := t ++ [c] }, w) := by
+  cases c with
+  | finish => simp [recHook, Rec.push, Except.map]
+  | op x => cases x <;> simp [recHook, Rec.push, Except.map]
+
+/-! ### append lemmas -/
+
+theorem walk_append (e : Nat → Nat → Bool) : ∀ (a b : List Op) (o n o2 n2 : Nat),
+    Walk e o n (a ++ b) o2 n2 ↔ ∃ o1 n1, Walk e o n a o1 n1 ∧ Walk e o1 n1 b o2 n2 := by
+  intro a
+  induction a with
+  | nil =>
+    intro b o n o2 n2
+    simp only [Walk, List.nil_append]
+    constructor
+    · intro h; exact ⟨o, n, ⟨rfl, rfl⟩, h⟩
+    · rintro ⟨o1, n1, ⟨rfl, rfl⟩, h⟩; exact h
+  | cons c cs ih =>
+    intro b o n o2 n2
+    cases c <;> simp only [Walk, List.cons_append, ih] <;> grind
+
+theorem exact_append (e : Nat → Nat → Bool) : ∀ (a b : List Op) (o n o1 n1 : Nat),
+    Walk e o n a o1 n1 → (Exact o n (a ++ b) ↔ Exact o n a ∧ Exact o1 n1 b) := by
+  intro a
+  induction a with
+  | nil => intro b o n o1 n1 h; simp [Walk] at h; simp [Exact, h]
+  | cons c cs ih =>
+    intro b o n o1 n1 h
+    cases c <;> simp only [Walk] at h <;>
+      simp only [Exact, List.cons_append, Op.oStart, Op.nStart, Op.oLen, Op.nLen, Nat.add_zero] <;>
+      grind
+
+theorem nDel_append : ∀ (a b : List Op), nDel (a ++ b) = nDel a + nDel b := by
+  intro a b
+  induction a with
+  | nil => simp [nDel]
+  | cons c cs ih => cases c <;> simp [nDel, ih] <;> omega
+
+theorem nIns_append : ∀ (a b : List Op), nIns (a ++ b) = nIns a + nIns b := by
+  intro a b
+  induction a with
+  | nil => simp [nIns]
+  | cons c cs ih => cases c <;> simp [nIns, ih] <;> omega
+
+theorem nEq_append : ∀ (a b : List Op), nEq (a ++ b) = nEq a + nEq b := by
+  intro a b
+  induction a with
+  | nil => simp [nEq]
+  | cons c cs ih => cases c <;> simp [nEq, ih] <;> omega
+
+theorem alt_snoc_congr (x y : Op) (hxy : x.tag = .equal ↔ y.tag = .equal) :
+    ∀ l : List Op, Alternating (l ++ [x]) → Alternating (l ++ [y]) := by
+  intro l
+  induction l with
+  | nil => intro _; simp [Alternating]
+  | cons a l ih =>
+    cases l with
+    | nil => simp only [List.cons_append, List.nil_append, Alternating]; grind
+    | cons b l =>
+      simp only [List.cons_append, Alternating] at ih ⊢
+      exact fun h => ⟨h.1, ih h.2⟩
+
+theorem alt_snoc_snoc (x y : Op) (hxy : (x.tag = .equal) ≠ (y.tag = .equal)) :
+    ∀ l : List Op, Alternating (l ++ [x]) → Alternating (l ++ [x, y]) := by
+  intro l
+  induction l with
+  | nil => intro _; simp only [List.nil_append, Alternating]; exact ⟨hxy, trivial⟩
+  | cons a l ih =>
+    cases l with
+    | nil =>
+      simp only [List.cons_append, List.nil_append, Alternating]
+      exact fun h => ⟨h.1, hxy, trivial⟩
+    | cons b l =>
+      simp only [List.cons_append, Alternating] at ih ⊢
+      exact fun h => ⟨h.1, ih h.2⟩
+
+
+/-! ### the invariant -/
+
+/-- `S` is a valid, alternating script from `(o,n)` to `(oc,nc)` with the given item counts, exact if `ex` -/
+def Good (e : Nat → Nat → Bool) (o n : Nat) (ex : Prop) (S : List Op) (oc nc d i q : Nat) : Prop :=
+  Walk e o n S oc nc ∧ Alternating S ∧ (ex → Exact o n S) ∧ nDel S = d ∧ nIns S = i ∧ nEq S = q
+
+theorem good_nil (e : Nat → Nat → Bool) (o n : Nat) (ex : Prop) : Good e o n ex [] o n 0 0 0 :=
+  ⟨⟨rfl, rfl⟩, trivial, fun _ => trivial, rfl, rfl, rfl⟩
+
+theorem good_single {e o n ex c oc nc d i q} (hw : Walk e o n [c] oc nc) (hx : ex → Exact o n [c])
+    (hd : d = nDel [c]) (hi : i = nIns [c]) (hq : q = nEq [c]) :
+    Good e o n ex ([] ++ [c]) oc nc d i q :=
+  ⟨hw, by simp [Alternating], hx, hd.symm, hi.symm, hq.symm⟩
+
+theorem good_last {e o n ex out p oc nc d i q} (h : Good e o n ex (out ++ [p]) oc nc d i q) :
+    ∃ o1 n1, Walk e o1 n1 [p] oc nc := by
+  obtain ⟨o1, n1, _, hb⟩ := (walk_append e _ _ _ _ _ _).1 h.1
+  exact ⟨o1, n1, hb⟩
+
+theorem good_add {e o n ex out p c oc nc d i q oc2 nc2 d' i' q'}
+    (h : Good e o n ex (out ++ [p]) oc nc d i q)
+    (ht : (p.tag = .equal) ≠ (c.tag = .equal))
+    (hw : Walk e oc nc [c] oc2 nc2) (hx : ex → Exact oc nc [c])
+    (hd : d' = d + nDel [c]) (hi : i' = i + nIns [c]) (hq : q' = q + nEq [c]) :
+    Good e o n ex ((out ++ [p]) ++ [c]) oc2 nc2 d' i' q' := by
+  obtain ⟨h1, h2, h3, h4, h5, h6⟩ := h
+  refine ⟨(walk_append e _ _ _ _ _ _).2 ⟨_, _, h1, hw⟩, ?_, ?_, ?_, ?_, ?_⟩
+  · rw [List.append_assoc]; exact alt_snoc_snoc p c ht out h2
+  · intro hex; exact (exact_append e _ _ _ _ _ _ h1).2 ⟨h3 hex, hx hex⟩
+  · rw [nDel_append, h4, hd]
+  · rw [nIns_append, h5, hi]
+  · rw [nEq_append, h6, hq]
+
+theorem good_repl {e o n ex out p p' oc nc d i q oc2 nc2 d' i' q'}
+    (h : Good e o n ex (out ++ [p]) oc nc d i q)
+    (ht : p.tag = .equal ↔ p'.tag = .equal)
+    (hw : ∀ o1 n1, Walk e o1 n1 [p] oc nc → Walk e o1 n1 [p'] oc2 nc2)
+    (hx : ex → ∀ o1 n1, Walk e o1 n1 [p] oc nc → Exact o1 n1 [p] → Exact o1 n1 [p'])
+    (hd : nDel [p'] + d = nDel [p] + d') (hi : nIns [p'] + i = nIns [p] + i')
+    (hq : nEq [p'] + q = nEq [p] + q') :
+    Good e o n ex (out ++ [p']) oc2 nc2 d' i' q' := by
+  obtain ⟨h1, h2, h3, h4, h5, h6⟩ := h
+  obtain ⟨o1, n1, ha, hb⟩ := (walk_append e _ _ _ _ _ _).1 h1
+  refine ⟨(walk_append e _ _ _ _ _ _).2 ⟨_, _, ha, hw _ _ hb⟩, alt_snoc_congr p p' ht out h2, ?_, ?_, ?_, ?_⟩
+  · intro hex
+    have := (exact_append e _ _ _ _ _ _ ha).1 (h3 hex)
+    exact (exact_append e _ _ _ _ _ _ ha).2 ⟨this.1, hx hex _ _ hb this.2⟩
+  · rw [nDel_append] at h4 ⊢; omega
+  · rw [nIns_append] at h5 ⊢; omega
+  · rw [nEq_append] at h6 ⊢; omega
+
+inductive RInv (e : Nat → Nat → Bool) (o n : Nat) (ex : Prop) :
+    RState → List Op → Nat → Nat → Nat → Nat → Nat → Prop
+  | init : RInv e o n ex {} [] o n 0 0 0
+  | eq {out a b c oc nc d i q} : Good e o n ex (out ++ [.equal a b c]) oc nc d i q →
+      RInv e o n ex { eq := some (a, b, c) } out oc nc d i q
+  | del {out a b c oc nc d i q} : Good e o n ex (out ++ [.delete a b c]) oc nc d i q →
+      RInv e o n ex { del := some (a, b, c) } out oc nc d i q
+  | ins {out a b c oc nc d i q} : Good e o n ex (out ++ [.insert a b c]) oc nc d i q →
+      RInv e o n ex { ins := some (a, b, c) } out oc nc d i q
+  | both {out a b x y c l oc nc d i q} : Good e o n ex (out ++ [.replace a b c l]) oc nc d i q →
+      RInv e o n ex { del := some (a, b, x), ins := some (y, c, l) } out oc nc d i q
+
+theorem eq_merge {e : Nat → Nat → Bool} {o n a b : Nat} (h1 : ∀ t, t < a → e (o+t) (n+t) = true)
+    (h2 : ∀ t, t < b → e (o+a+t) (n+a+t) = true) : ∀ t, t < a + b → e (o+t) (n+t) = true := by
+  intro t ht
+  by_cases hta : t < a
+  · exact h1 t hta
+  · have := h2 (t - a) (by omega)
+    have e1 : o + a + (t - a) = o + t := by omega
+    have e2 : n + a + (t - a) = n + t := by omega
+    rwa [e1, e2] at this
+
+local macro "cnt" : tactic => `(tactic| (simp only [nDel, nIns, nEq] <;> omega))
+local macro "tg" : tactic => `(tactic| simp [Op.tag])
+local macro "run" : tactic => `(tactic| simp [replaceHook, rFlushEq, rFlushDelIns, recHook_call])
+local macro "wk" : tactic =>
+  `(tactic| (intro o1 n1 h; simp only [Walk] at *; refine ⟨?_, ?_⟩ <;> omega))
+local macro "xk" : tactic =>
+  `(tactic| (intro hex o1 n1 h1 h2
+             simp only [Walk, Exact, Op.oStart, Op.nStart, and_true] at *
+             omega))
+
+theorem step_equal {e o n ex r out oc nc d i q a b l oc2 nc2} (w : World)
+    (h : RInv e o n ex r out oc nc d i q) (hw : Walk e oc nc [.equal a b l] oc2 nc2) :
+    ∃ out2 r2, (replaceHook recHook).call (.op (.equal a b l)) (r, { trace := out.map Call.op }) w
+        = .ok ((r2, { trace := out2.map Call.op }), w) ∧ RInv e o n ex r2 out2 oc2 nc2 d i (q + l) := by
+  have hx : ex → Exact oc nc [.equal a b l] := by
+    intro _; simp only [Walk] at hw; simp [Exact, Op.oStart, Op.nStart, hw]
+  cases h with
+  | init => exact ⟨[], { eq := some (a, b, l) }, by run, .eq (good_single hw hx (by cnt) (by cnt) (by cnt))⟩
+  | eq hg =>
+    rename_i a0 b0 l0
+    refine ⟨out, { eq := some (a0, b0, l0 + l) }, by run,
+      .eq (good_repl hg (by tg) ?_ ?_ (by cnt) (by cnt) (by cnt))⟩
+    · intro o1 n1 h
+      simp only [Walk] at h hw ⊢
+      obtain ⟨rfl, rfl, hl0, he0, rfl, rfl⟩ := h
+      obtain ⟨rfl, rfl, hl, he, rfl, rfl⟩ := hw
+      exact ⟨rfl, rfl, by omega, eq_merge he0 he, by omega, by omega⟩
+    · intro _ o1 n1 _ h2
+      simpa [Exact, Op.oStart, Op.nStart] using h2
+  | del hg => exact ⟨_, { eq := some (a, b, l) }, by run, .eq (good_add hg (by tg) hw hx (by cnt) (by cnt) (by cnt))⟩
+  | ins hg => exact ⟨_, { eq := some (a, b, l) }, by run, .eq (good_add hg (by tg) hw hx (by cnt) (by cnt) (by cnt))⟩
+  | both hg => exact ⟨_, { eq := some (a, b, l) }, by run, .eq (good_add hg (by tg) hw hx (by cnt) (by cnt) (by cnt))⟩
+
+
+theorem step_delete {e o n ex r out oc nc d i q a l x oc2 nc2} (w : World)
+    (h : RInv e o n ex r out oc nc d i q) (hw : Walk e oc nc [.delete a l x] oc2 nc2)
+    (hx : ex → Exact oc nc [.delete a l x]) :
+    ∃ out2 r2, (replaceHook recHook).call (.op (.delete a l x)) (r, { trace := out.map Call.op }) w
+        = .ok ((r2, { trace := out2.map Call.op }), w) ∧ RInv e o n ex r2 out2 oc2 nc2 (d + l) i q := by
+  cases h with
+  | init => exact ⟨[], { del := some (a, l, x) }, by run, .del (good_single hw hx (by cnt) (by cnt) (by cnt))⟩
+  | eq hg => exact ⟨_, { del := some (a, l, x) }, by run, .del (good_add hg (by tg) hw hx (by cnt) (by cnt) (by cnt))⟩
+  | del hg =>
+    rename_i a0 l0 x0
+    obtain ⟨o1, n1, hp⟩ := good_last hg
+    have ha : a = a0 + l0 := by simp only [Walk] at hp hw; omega
+    exact ⟨out, { del := some (a0, l0 + l, x0) }, by simp [replaceHook, rFlushEq, ha],
+      .del (good_repl hg (by tg) (by wk) (by xk) (by cnt) (by cnt) (by cnt))⟩
+  | ins hg =>
+    rename_i y0 c0 i0
+    exact ⟨out, { del := some (a, l, x), ins := some (y0, c0, i0) }, by run,
+      .both (good_repl hg (by tg) (by wk) (by xk) (by cnt) (by cnt) (by cnt))⟩
+  | both hg =>
+    rename_i a0 l0 x0 y0 c0 i0
+    obtain ⟨o1, n1, hp⟩ := good_last hg
+    have ha : a = a0 + l0 := by simp only [Walk] at hp hw; omega
+    exact ⟨out, { del := some (a0, l0 + l, x0), ins := some (y0, c0, i0) }, by simp [replaceHook, rFlushEq, ha],
+      .both (good_repl hg (by tg) (by wk) (by xk) (by cnt) (by cnt) (by cnt))⟩
+
+theorem step_insert {e o n ex r out oc nc d i q y a l oc2 nc2} (w : World)
+    (h : RInv e o n ex r out oc nc d i q) (hw : Walk e oc nc [.insert y a l] oc2 nc2)
+    (hx : ex → Exact oc nc [.insert y a l]) :
+    ∃ out2 r2, (replaceHook recHook).call (.op (.insert y a l)) (r, { trace := out.map Call.op }) w
+        = .ok ((r2, { trace := out2.map Call.op }), w) ∧ RInv e o n ex r2 out2 oc2 nc2 d (i + l) q := by
+  cases h with
+  | init => exact ⟨[], { ins := some (y, a, l) }, by run, .ins (good_single hw hx (by cnt) (by cnt) (by cnt))⟩
+  | eq hg => exact ⟨_, { ins := some (y, a, l) }, by run, .ins (good_add hg (by tg) hw hx (by cnt) (by cnt) (by cnt))⟩
+  | ins hg =>
+    rename_i y0 c0 i0
+    obtain ⟨o1, n1, hp⟩ := good_last hg
+    have ha : c0 + i0 = a := by simp only [Walk] at hp hw; omega
+    exact ⟨out, { ins := some (y0, c0, l + i0) }, by simp [replaceHook, rFlushEq, ha],
+      .ins (good_repl hg (by tg) (by wk) (by xk) (by cnt) (by cnt) (by cnt))⟩
+  | del hg =>
+    rename_i a0 l0 x0
+    exact ⟨out, { del := some (a0, l0, x0), ins := some (y, a, l) }, by run,
+      .both (good_repl hg (by tg) (by wk) (by xk) (by cnt) (by cnt) (by cnt))⟩
+  | both hg =>
+    rename_i a0 l0 x0 y0 c0 i0
+    obtain ⟨o1, n1, hp⟩ := good_last hg
+    have ha : c0 + i0 = a := by simp only [Walk] at hp hw; omega
+    exact ⟨out, { del := some (a0, l0, x0), ins := some (y0, c0, l + i0) }, by simp [replaceHook, rFlushEq, ha],
+      .both (good_repl hg (by tg) (by wk) (by xk) (by cnt) (by cnt) (by cnt))⟩
+
+theorem step_finish {e o n ex r out oc nc d i q} (w : World) (h : RInv e o n ex r out oc nc d i q) :
+    ∃ out2 r2, (replaceHook recHook).call .finish (r, { trace := out.map Call.op }) w
+        = .ok ((r2, { trace := out2.map Call.op ++ [.finish] }), w) ∧ Good e o n ex out2 oc nc d i q := by
+  cases h with
+  | init => exact ⟨[], {}, by run, good_nil e o n ex⟩
+  | eq hg => exact ⟨_, {}, by run, hg⟩
+  | del hg => exact ⟨_, {}, by run, hg⟩
+  | ins hg => exact ⟨_, {}, by run, hg⟩
+  | both hg => exact ⟨_, {}, by run, hg⟩
+
+
+theorem deliver_ops (e : Nat → Nat → Bool) (o n : Nat) (ex : Prop) (o' n' : Nat) (w : World) :
+    ∀ (ops : List Op) (r : RState) (out : List Op) (oc nc d i q : Nat),
+    RInv e o n ex r out oc nc d i q → NoReplaceOp ops → Walk e oc nc ops o' n' →
+    (ex → Exact oc nc ops) →
+    ∃ out' rs, deliver (replaceHook recHook) (ops.map Call.op ++ [.finish])
+        (r, { trace := out.map Call.op }) w = .ok ((rs, { trace := out'.map Call.op ++ [.finish] }), w) ∧
+      Good e o n ex out' o' n' (d + nDel ops) (i + nIns ops) (q + nEq ops) := by
+  intro ops
+  induction ops with
+  | nil =>
+    intro r out oc nc d i q hinv _ hw _
+    obtain ⟨rfl, rfl⟩ := hw
+    obtain ⟨out2, r2, hc, hg⟩ := step_finish w hinv
+    exact ⟨out2, r2, by simp [deliver, hc], hg⟩
+  | cons c ops ih =>
+    intro r out oc nc d i q hinv hnr hw hx
+    cases c with
+    | replace => exact hnr.elim
+    | equal a b l =>
+      simp only [Walk] at hw
+      obtain ⟨rfl, rfl, hl, he, hw'⟩ := hw
+      obtain ⟨out2, r2, hc, hinv2⟩ := step_equal (a := a) (b := b) (l := l) (oc2 := a + l) (nc2 := b + l) w hinv
+        (by simp only [Walk]; refine ⟨?_, ?_, hl, he, ?_, ?_⟩ <;> trivial)
+      obtain ⟨out3, r3, hd, hg⟩ := ih r2 out2 _ _ _ _ _ hinv2 hnr hw'
+        (fun hex => by have := hx hex; simp only [Exact] at this; exact this.2.2)
+      refine ⟨out3, r3, by simp [deliver, hc] at hd ⊢; exact hd, ?_⟩
+      simp only [nDel, nIns, nEq]
+      rwa [Nat.add_assoc] at hg
+    | delete a l x =>
+      simp only [Walk] at hw
+      obtain ⟨rfl, hl, hw'⟩ := hw
+      obtain ⟨out2, r2, hc, hinv2⟩ := step_delete (a := a) (l := l) (x := x) (oc2 := a + l) (nc2 := nc) w hinv
+        (by simp [Walk, hl])
+        (fun hex => by
+          have := hx hex; simp only [Exact] at this ⊢; exact ⟨this.1, this.2.1, trivial⟩)
+      obtain ⟨out3, r3, hd, hg⟩ := ih r2 out2 _ _ _ _ _ hinv2 hnr hw'
+        (fun hex => by
+          have := hx hex; simp only [Exact, Op.oLen, Op.nLen, Nat.add_zero] at this; exact this.2.2)
+      refine ⟨out3, r3, by simp [deliver, hc] at hd ⊢; exact hd, ?_⟩
+      simp only [nDel, nIns, nEq]
+      rwa [Nat.add_assoc] at hg
+    | insert y a l =>
+      simp only [Walk] at hw
+      obtain ⟨rfl, hl, hw'⟩ := hw
+      obtain ⟨out2, r2, hc, hinv2⟩ := step_insert (y := y) (a := a) (l := l) (oc2 := oc) (nc2 := a + l) w hinv
+        (by simp [Walk, hl])
+        (fun hex => by
+          have := hx hex; simp only [Exact] at this ⊢; exact ⟨this.1, this.2.1, trivial⟩)
+      obtain ⟨out3, r3, hd, hg⟩ := ih r2 out2 _ _ _ _ _ hinv2 hnr hw'
+        (fun hex => by
+          have := hx hex; simp only [Exact, Op.oLen, Op.nLen, Nat.add_zero] at this; exact this.2.2)
+      refine ⟨out3, r3, by simp [deliver, hc] at hd ⊢; exact hd, ?_⟩
+      simp only [nDel, nIns, nEq]
+      rwa [Nat.add_assoc] at hg
+
+end Replace
+
 theorem replace_preserves (e : Nat → Nat → Bool) (ops : List Op) (o n o' n' : Nat) (w : World)
     (hnr : NoReplaceOp ops) (hw : Walk e o n ops o' n') :
     ∃ out rs, replaceOut ops w = .ok ((rs, { trace := out.map Call.op ++ [.finish] }), w) ∧
       Walk e o n out o' n' ∧ nDel out = nDel ops ∧ nIns out = nIns ops ∧ nEq out = nEq ops ∧
       Alternating out ∧ (Exact o n ops → Exact o n out) := by
-  sorry
+  obtain ⟨out, rs, hd, h1, h2, h3, h4, h5, h6⟩ :=
+    Replace.deliver_ops e o n (Exact o n ops) o' n' w ops {} [] o n 0 0 0 .init hnr hw id
+  refine ⟨out, rs, ?_, h1, by omega, by omega, by omega, h2, h3⟩
+  simpa [replaceOut] using hd
 
 end SimilarVerif
